@@ -152,3 +152,10 @@ package scheduler
 //@   calls Scheduler.uuidLock#1: requires $0 == uuid
 //@   calls Scheduler.uuidLock#1: set locked = $r
 //@   calls ContainerQueue.Cancel#1: requires locked && $0 == uuid
+
+// requeue: the container is unlocked only under its operation latch.
+//@ func Scheduler.requeue property C14
+//@   ghost locked bool = false
+//@   calls Scheduler.uuidLock#1: requires $0 == ent.Container.UUID
+//@   calls Scheduler.uuidLock#1: set locked = $r
+//@   calls ContainerQueue.Unlock#1: requires locked && $0 == ent.Container.UUID
